@@ -482,8 +482,13 @@ func (c *tunnelChannel) recvLoop() {
 			return
 		}
 		supportedRevisions := c.tunnelOpts.supportedRevisions()
+		serverRevisions := settings.Settings.SupportedProtocolRevisions
+		if len(serverRevisions) == 0 {
+			// per the protocol, no revisions listed means only revision zero
+			serverRevisions = []tunnelpb.ProtocolRevision{tunnelpb.ProtocolRevision_REVISION_ZERO}
+		}
 		var supported bool
-		for _, rev := range settings.Settings.SupportedProtocolRevisions {
+		for _, rev := range serverRevisions {
 			switch {
 			case inSlice(rev, supportedRevisions):
 				if rev > c.useRevision {
@@ -495,7 +500,7 @@ func (c *tunnelChannel) recvLoop() {
 		}
 		if !supported {
 			c.close(fmt.Errorf("protocol error: server support revisions %v, but client supports revisions %v",
-				settings.Settings.SupportedProtocolRevisions, supportedRevisions))
+				serverRevisions, supportedRevisions))
 			return
 		}
 		c.settings = settings.Settings
